@@ -219,6 +219,13 @@ class DataPacketReceiver(Elaboratable):
                 with m.Elif(sink.valid):
                     m.next = "WAIT_FOR_HPSTART"
 
+                # A header that arrives without a payload (e.g. a deferred data packet header) can be
+                # followed directly by the next header packet; in which case the word we're looking at
+                # is that packet's HPSTART. Start receiving it now, rather than passing over it.
+                with m.If(stream_matches_symbols(sink, SHP, SHP, SHP, EPF)):
+                    m.d.comb += crc16.clear.eq(1)
+                    m.next = "RECEIVE_DW0"
+
             # RECEIVE_PAYLOAD -- receive the core data payload
             with m.State("RECEIVE_PAYLOAD"):
                 m.d.comb += [
